@@ -3,7 +3,8 @@
 From Coq Require Import List Arith Bool Permutation.
 Import ListNotations.
 Require Import Fggs.Model.Semiring Fggs.Model.Replace Fggs.Proofs.Replace_spec Fggs.Proofs.Replace_model_spec
-  Fggs.Proofs.Replace_confl Fggs.Proofs.Replace_derive_main Fggs.Proofs.Replace_corollaries Fggs.Proofs.Replace_examples Fggs.Proofs.Replace_iso Fggs.Proofs.Replace_dasst.
+  Fggs.Proofs.Replace_confl Fggs.Proofs.Replace_derive_main Fggs.Proofs.Replace_corollaries Fggs.Proofs.Replace_examples Fggs.Proofs.Replace_iso Fggs.Proofs.Replace_dasst
+  Fggs.Proofs.Replace_complete Fggs.Proofs.Replace_nlabs Fggs.Proofs.Replace_dasst_fun Fggs.Proofs.Replace_alias.
 
 (** replace_edge on a well-formed host / edge / replacement whose externals are pairwise distinct:
     returns; the result satisfies the replacement specification (exactly the edge removed, rest and
@@ -145,3 +146,154 @@ Theorem C15_derive_assignment : forall L t nx,
     forall v x y, In (v, x) nn -> aget node_eqb (ds_asst s) v = Some y -> In (x, y) (derived_asst t).
 Proof. exact derive_asst_main. Qed.
 Print Assumptions C15_derive_assignment.
+
+(** ** the oracles are exact deciders of the specifications (sound AND complete, unbounded) *)
+Theorem C15_replace_ok_exact : forall host e repl res nm em,
+  replace_ok host e repl res nm em = true <-> replace_spec host e repl res nm em.
+Proof. exact replace_ok_iff. Qed.
+Print Assumptions C15_replace_ok_exact.
+
+(** so an output the oracle rejects is a genuine violation of the replacement specification *)
+Theorem C15_replace_ok_rejects : forall host e repl res nm em,
+  replace_ok host e repl res nm em = false <-> ~ replace_spec host e repl res nm em.
+Proof. exact replace_ok_false. Qed.
+Print Assumptions C15_replace_ok_rejects.
+
+Theorem C15_same_upto_naming_exact : forall g nn en d,
+  same_upto_naming g nn en d = true <-> iso_via g nn en d.
+Proof. exact same_upto_naming_iff. Qed.
+Print Assumptions C15_same_upto_naming_exact.
+
+Theorem C15_same_upto_naming_rejects : forall g nn en d,
+  same_upto_naming g nn en d = false <-> ~ iso_via g nn en d.
+Proof. exact same_upto_naming_false. Qed.
+Print Assumptions C15_same_upto_naming_rejects.
+
+(** start_graph: [start_ok] decides the Prop-level specification (one edge labelled by the start
+    symbol on pairwise distinct nodes of the right labels, nothing else, both label tables exact) *)
+Theorem C15_start_ok_exact : forall s g, start_ok s g = true <-> start_spec s g.
+Proof. exact start_ok_iff. Qed.
+Print Assumptions C15_start_ok_exact.
+
+Theorem C15_start_graph_spec : forall s nx, start_spec s (fst (fst (start_graph_model s nx))).
+Proof. exact start_graph_model_spec. Qed.
+Print Assumptions C15_start_graph_spec.
+
+Theorem C15_oracle_exact_example :
+  (exists g' nx' nm em, replace_edge_model ex_host 2 ex_edge ex_repl = (g', nx', Ok (nm, em)) /\
+                        replace_spec ex_host ex_edge ex_repl g' nm em) /\
+  ~ replace_spec ex_host ex_edge ex_repl ex_host [] [].
+Proof. exact replace_ok_iff_example. Qed.
+Print Assumptions C15_oracle_exact_example.
+
+(** ** the denotational assignment is a function of the node name, defined exactly on the node
+    names of the derived graph (same list of names, in the same order) *)
+Theorem C15_derived_asst_names : forall L t, wf_dtreeb L t = true ->
+  map fst (derived_asst t) = map fst (d_nodes (derived_graph t)).
+Proof. exact derived_asst_names. Qed.
+Print Assumptions C15_derived_asst_names.
+
+Theorem C15_derived_asst_nodup : forall L t, wf_dtreeb L t = true -> NoDup (map fst (derived_asst t)).
+Proof. exact derived_asst_nodup. Qed.
+Print Assumptions C15_derived_asst_nodup.
+
+Theorem C15_derived_asst_function : forall L t, wf_dtreeb L t = true ->
+  (forall x y y', In (x, y) (derived_asst t) -> In (x, y') (derived_asst t) -> y = y') /\
+  (forall x, In x (map fst (d_nodes (derived_graph t))) <-> exists y, In (x, y) (derived_asst t)).
+Proof. exact derived_asst_function. Qed.
+Print Assumptions C15_derived_asst_function.
+
+(** after ANY sequence of steps the assignment has values only at nodes of the graph *)
+Theorem C15_run_assignment_keys : forall L t nx l s,
+  wf_dtreeb L t = true -> functionalb L = true ->
+  run l (init_state t nx) = Ok s ->
+  forall v, amem node_eqb (rs_asst s) v = true -> In v (g_nodes (rs_graph s)).
+Proof. exact run_asst_keys. Qed.
+Print Assumptions C15_run_assignment_keys.
+
+(** derive(): the assignment is defined on the derived graph's nodes AND NOWHERE ELSE, and read
+    through the names it is exactly the denotational assignment (both inclusions) *)
+Theorem C15_derive_assignment_exact : forall L t nx,
+  wf_dtreeb L t = true -> functionalb L = true ->
+  exists s nn en,
+    derive_model t nx = (s, None) /\ iso_via (ds_graph s) nn en (derived_graph t) /\
+    (forall v, amem node_eqb (ds_asst s) v = true <-> In v (g_nodes (ds_graph s))) /\
+    (forall x y, In (x, y) (derived_asst t) <->
+                 exists v, In (v, x) nn /\ aget node_eqb (ds_asst s) v = Some y).
+Proof. exact derive_asst_exact. Qed.
+Print Assumptions C15_derive_assignment_exact.
+
+Theorem C15_derived_asst_example :
+  wf_dtreeb xL xtree = true /\ length (derived_asst xtree) = 3 /\
+  map fst (derived_asst xtree) = map fst (d_nodes (derived_graph xtree)).
+Proof. exact derived_asst_example. Qed.
+Print Assumptions C15_derived_asst_example.
+
+(** ** the node-label table [_node_labels]: a replacement only appends to it, keeps every node's
+    label registered, and keeps it tight (duplicate-free, exactly the labels of the nodes) *)
+Theorem C15_replace_node_labels : forall host e repl res nm em, replace_spec host e repl res nm em ->
+  (exists t, g_nlabs res = g_nlabs host ++ t) /\
+  (nl_closed host -> nl_closed res) /\
+  (nl_tight host -> nl_tight res).
+Proof. exact replace_spec_nlabs. Qed.
+Print Assumptions C15_replace_node_labels.
+
+Theorem C15_run_node_labels : forall L t nx l s,
+  wf_dtreeb L t = true -> functionalb L = true ->
+  run l (init_state t nx) = Ok s -> nl_tight (rs_graph s).
+Proof. exact run_nlabs_tight. Qed.
+Print Assumptions C15_run_node_labels.
+
+Theorem C15_derive_node_labels : forall L t nx,
+  wf_dtreeb L t = true -> functionalb L = true ->
+  exists s, derive_model t nx = (s, None) /\ nl_tight (ds_graph s).
+Proof. exact derive_nlabs_tight. Qed.
+Print Assumptions C15_derive_node_labels.
+
+(** ** replace_edge(g, e, g): host used as its own replacement (finding c15_replacement_is_host).
+    The faithful aliasing model never returns a result that satisfies the specification ... *)
+Theorem C15_replace_alias_never_spec : forall g nx e g' nx' nm em,
+  replace_edge_alias_model g nx e = (g', nx', Ok (nm, em)) -> ~ replace_spec g e g g' nm em.
+Proof. exact replace_alias_never_spec. Qed.
+Print Assumptions C15_replace_alias_never_spec.
+
+(** ... on every well-formed, well-typed aliased call it raises RuntimeError with the edge already
+    removed, or (every node external, [e] the only edge) returns the host minus [e] with an empty
+    edge map, which is not a replacement by the caller's graph *)
+Theorem C15_replace_alias_guarded : forall L g nx e,
+  wf_graphb g = true -> belowb nx g = true -> memb edge_eqb (g_edges g) e = true ->
+  nodupb node_eqb (g_ext g) = true -> functionalb L = true -> labels_in L g = true ->
+  l_type (e_label e) = gtype g ->
+  (exists g' nx', replace_edge_alias_model g nx e = (g', nx', Err RuntimeErr) /\
+                  has_edge_id g' (e_id e) = false /\ g' <> g)
+  \/ (exists nm, replace_edge_alias_model g nx e = (remove_edge_id g (e_id e), nx, Ok (nm, [])) /\
+                 ~ replace_spec g e g (remove_edge_id g (e_id e)) nm []).
+Proof. exact replace_alias_guarded_b. Qed.
+Print Assumptions C15_replace_alias_guarded.
+
+(** concrete witnesses of both outcomes (vm_compute) *)
+Theorem C15_replace_alias_refuted :
+  (wf_graphb al_host1 = true /\ belowb 0 al_host1 = true /\ memb edge_eqb (g_edges al_host1) al_e = true /\
+   nodupb node_eqb (g_ext al_host1) = true /\ functionalb [al_t; al_X] = true /\ labels_in [al_t; al_X] al_host1 = true /\
+   l_type (e_label al_e) = gtype al_host1 /\
+   exists g', replace_edge_alias_model al_host1 0 al_e = (g', 1, Err RuntimeErr) /\
+              length (g_nodes g') = 3 /\ length (g_edges g') = 1) /\
+  (wf_graphb al_host2 = true /\ belowb 0 al_host2 = true /\ memb edge_eqb (g_edges al_host2) al_e2 = true /\
+   nodupb node_eqb (g_ext al_host2) = true /\ functionalb [al_X] = true /\ labels_in [al_X] al_host2 = true /\
+   l_type (e_label al_e2) = gtype al_host2 /\
+   exists g' nm, replace_edge_alias_model al_host2 0 al_e2 = (g', 0, Ok (nm, [])) /\ g_edges g' = [] /\
+                 ~ replace_spec al_host2 al_e2 al_host2 g' nm [] /\
+                 exists g'' nm' em', replace_edge_model al_host2 0 al_e2 al_host2 = (g'', 1, Ok (nm', em')) /\
+                                     length (g_edges g'') = 1 /\ replace_spec al_host2 al_e2 al_host2 g'' nm' em').
+Proof. exact replace_alias_refuted. Qed.
+Print Assumptions C15_replace_alias_refuted.
+
+(** the positive theorem under the guard "the replacement is read before the host is mutated"
+    (a snapshot of [g]): the call returns and satisfies the specification *)
+Theorem C15_replace_snapshot_spec : forall L g nx e,
+  wf_graphb g = true -> belowb nx g = true -> memb edge_eqb (g_edges g) e = true ->
+  nodupb node_eqb (g_ext g) = true -> functionalb L = true -> labels_in L g = true ->
+  l_type (e_label e) = gtype g ->
+  exists g' nx' nm em, replace_edge_model g nx e g = (g', nx', Ok (nm, em)) /\ replace_spec g e g g' nm em.
+Proof. exact replace_snapshot_spec. Qed.
+Print Assumptions C15_replace_snapshot_spec.
